@@ -33,9 +33,9 @@ RULE = ("generated histories of solver-API calls (add_assertion with formulas ov
         "push(n>1); distinct by history")
 
 REFSOLVER = ["/venv/bin/python", "-B", "-S", os.path.join(ROOT, "vf", "refsolver.py")]
-CFG = Cfg(max_depth=3, theories={"bool", "bv", "sort", "uf"}, bv_widths=[1, 2, 3], sorts=["S1"], nsyms=3, share=25,
+CFG = Cfg(max_depth=3, theories={"bool", "bv", "sort", "uf"}, bv_widths=[1, 2, 3], sorts=["S1", "L{S1}", "L{L{S1}}"], nsyms=3, share=25,
           quant_types=[BOOL])
-CFG_NOUF = Cfg(max_depth=3, theories={"bool", "bv", "sort"}, bv_widths=[1, 2, 3], sorts=["S1"], nsyms=3, share=25,
+CFG_NOUF = Cfg(max_depth=3, theories={"bool", "bv", "sort"}, bv_widths=[1, 2, 3], sorts=["S1", "L{S1}"], nsyms=3, share=25,
                quant_types=[BOOL])
 CARD = 2
 
@@ -377,7 +377,13 @@ def check_broken_solver(run, rnd, mode=None, fbp=None):
     try:
         with env:
             solver = SmtLibSolver(REFSOLVER + ["--mode", mode, "--card", str(CARD)], env, QF_UFBV, LOGICS=PYSMT_LOGICS)
-            solver.add_assertion(pys.build(env, fbp))
+            try:
+                solver.add_assertion(pys.build(env, fbp))
+            except Exception as e:
+                # the process works until check-sat: a legal assertion must go through
+                run.fail({"subcheck": "smtlibsolver:raised", "op": "assert"}, case,
+                         "add_assertion raised %s: %s" % (type(e).__name__, str(e)[:200]))
+                return
             try:
                 r = with_timeout(10, lambda: solver.solve())
             except Timeout:
